@@ -3456,11 +3456,10 @@ namespace gch
         set_size (count);
       }
 
-#ifdef GCH_LIB_CONCEPTS
-      template <std::input_iterator InputIt>
-#else
+      // Note: These two are selected by the iterator category tag alone (like assign, insert and
+      //       append), so that eg. `std::move_iterator<T *>` (which only models
+      //       `std::input_iterator` in C++20) takes the same path under every standard.
       template <typename InputIt>
-#endif
       GCH_CPP20_CONSTEXPR
       small_vector_base (InputIt first, InputIt last, std::input_iterator_tag,
                          const alloc_ty& alloc)
@@ -3470,11 +3469,7 @@ namespace gch
         append_range (first, last, iterator_cat { });
       }
 
-#ifdef GCH_LIB_CONCEPTS
-      template <std::forward_iterator ForwardIt>
-#else
       template <typename ForwardIt>
-#endif
       GCH_CPP20_CONSTEXPR
       small_vector_base (ForwardIt first, ForwardIt last, std::forward_iterator_tag,
                          const alloc_ty& alloc)
